@@ -437,7 +437,8 @@ func jobs(quick bool) []job {
 		for _, h := range []string{"S2", "S4"} {
 			add(h, 15, 2)
 		}
-		add("S3", 30, 0)
+		add("S11", 14, 0)
+		add("S3", 16, 0)
 		return out
 	}
 	// thorough: the tiny harnesses first, then breadth first
@@ -457,7 +458,9 @@ func jobs(quick bool) []job {
 	for _, h := range []string{"S2", "S4"} {
 		add(h, 60, 3)
 	}
+	add("S11", 90, 0)
 	add("S3", 240, 1)
+	add("S11", 240, 1)
 	add("S5", 90, 2)
 	add("S7", 200, 2)
 	add("S3b", 90, 3)
